@@ -525,3 +525,120 @@ def r6_opaque_text(toks, log, where):
         out.append(t)
         k += 1
     return out
+
+
+def inline_helper(toks, helper, log, where):
+    """R20: replace calls of a small helper function that is not part of the unit by a block that binds the arguments to
+       the parameters and contains the helper's body (the helper's text is taken from /repo like every extracted item).
+       `helper`: dict(name, params=[(name, type_text)], self_kind in (None, 'ref', 'val'), body_toks).
+       Refused (Unsupported) when the body contains `return` or `?`, or the receiver is not a simple path."""
+    name = helper["name"]
+    out, k, n = [], 0, len(toks)
+    changed = 0
+    while k < n:
+        t = toks[k]
+        if t.kind == "ident" and t.text == name:
+            j = _next_code(toks, k + 1)
+            p = _prev_code(toks, k - 1)
+            if j < n and toks[j].text == "(" and not (p >= 0 and toks[p].kind == "ident" and toks[p].text == "fn"):
+                cl = match_close(toks, j)
+                args = split_args(toks[j + 1:cl])
+                recv = None
+                start = k
+                if p >= 0 and toks[p].text == ".":
+                    # method call: receiver = chain of idents / field accesses before the dot
+                    q = _prev_code(toks, p - 1)
+                    rs = q
+                    while True:
+                        if toks[rs].kind not in ("ident", "num"):
+                            raise Unsupported("%s: receiver of %s() is not a simple path" % (where, name))
+                        pp = _prev_code(toks, rs - 1)
+                        if pp >= 0 and toks[pp].text == ".":
+                            rs = _prev_code(toks, pp - 1)
+                            continue
+                        break
+                    recv = untok([x for x in toks[rs:p] if _is_code(x)])
+                    # drop the receiver tokens already emitted
+                    cnt = len([x for x in toks[rs:k]])
+                    del out[len(out) - cnt:]
+                    start = rs
+                elif p >= 0 and toks[p].text == "::":
+                    # Type::name(..) or Self::name(..): drop the path prefix
+                    q = _prev_code(toks, p - 1)
+                    cnt = len(toks[q:k])
+                    del out[len(out) - cnt:]
+                    start = q
+                binds = []
+                params = list(helper["params"])
+                if helper["self_kind"] is not None:
+                    if recv is None:
+                        # UFCS call: first argument is the receiver
+                        recv = untok(args[0]).strip()
+                        args = args[1:]
+                    if helper["self_kind"] == "ref":
+                        binds.append("let vx_self = %s;" % (recv if recv == "self" else "&(" + recv + ")"))
+                    else:
+                        binds.append("let vx_self = %s;" % recv)
+                if len(args) != len(params):
+                    raise Unsupported("%s: call of %s with %d args, helper has %d params" % (where, name, len(args), len(params)))
+                for (pn, pt), a in zip(params, args):
+                    binds.append("let %s: %s = %s;" % (pn, pt, untok(a).strip()))
+                body = []
+                for x in helper["body_toks"]:
+                    if x.kind == "ident" and x.text == "self":
+                        body.extend(syn("vx_self"))
+                    else:
+                        body.append(x)
+                blk = syn("{ " + " ".join(binds) + " ") + body + syn(" }")
+                blk[0].start = toks[start].start
+                out.extend(blk)
+                changed += 1
+                k = cl + 1
+                continue
+        out.append(t)
+        k += 1
+    if changed:
+        log.append(("R20", where, "call of helper %s (x%d)" % (name, changed), "inlined body of %s from %s" % (name, helper["origin"])))
+    return out
+
+
+def make_helper(item, origin):
+    """build the helper description from an extracted fn Item (tokens incl. signature)"""
+    toks = item.toks
+    k = 0
+    while not (toks[k].kind == "ident" and toks[k].text == "fn"):
+        k += 1
+    # params
+    j = k
+    while toks[j].text != "(":
+        if toks[j].text == "<":
+            raise Unsupported("generic helper %s" % item.name)
+        j += 1
+    cl = match_close(toks, j)
+    params, self_kind = [], None
+    for a in split_args(toks[j + 1:cl]):
+        txt = re.sub(r"\s+", " ", untok(a)).strip()
+        if txt in ("self", "mut self"):
+            self_kind = "val"
+        elif txt in ("&self", "& self"):
+            self_kind = "ref"
+        elif "self" == txt.replace("&mut ", "").strip():
+            raise Unsupported("helper %s takes &mut self" % item.name)
+        else:
+            m = re.match(r"(?:mut )?(\w+)\s*:\s*(.*)$", txt)
+            if not m:
+                raise Unsupported("helper %s: parameter %r" % (item.name, txt))
+            params.append((m.group(1), m.group(2)))
+    # body
+    b = cl
+    while not (toks[b].kind == "punct" and toks[b].text == "{"):
+        if toks[b].kind == "ident" and toks[b].text == "where":
+            raise Unsupported("helper %s has a where clause" % item.name)
+        b += 1
+    body = toks[b:match_close(toks, b) + 1]
+    for x in body:
+        if (x.kind == "ident" and x.text == "return") or (x.kind == "punct" and x.text == "?"):
+            raise Unsupported("helper %s contains return/?" % item.name)
+    body = r1_strip_attrs_docs(body, [], origin)
+    body = r3_bytes(body, [], origin)
+    return {"name": item.name, "params": params, "self_kind": self_kind, "body_toks": body, "origin": origin}
